@@ -9,17 +9,27 @@
 (* is enough to state the history properties checked on the model.            *)
 (***************************************************************************)
 EXTENDS Naturals, Integers, Sequences, FiniteSets, TLC, Json
-CONSTANTS Fonts, SizeIdx, Classes, MaxLen, Units, DpiIdx, BadKinds
+CONSTANTS Fonts, SizeIdx, Classes, MaxLen, Units, DpiIdx, BadKinds, Modes
 VARIABLES h, phase
 vars == <<h, phase>>
-H0 == [font |-> 1, size |-> 1, txt |-> <<>>, unit |-> "in", dpi |-> 1, bad |-> "none"]
+H0 == [font |-> 1, size |-> 1, txt |-> <<>>, unit |-> "in", dpi |-> 1, bad |-> "none", mode |-> "mixed"]
 Init == h = H0 /\ phase = "font"
-Start == /\ phase = "font" /\ \E f \in Fonts, s \in SizeIdx : h' = [h EXCEPT !.font = f, !.size = s] /\ phase' = "append"
-AppendChar == /\ phase = "append" /\ Len(h.txt) < MaxLen /\ \E c \in Classes : h' = [h EXCEPT !.txt = Append(@, c)] /\ UNCHANGED phase
-Measure == /\ phase = "append" /\ \E u \in Units, dd \in DpiIdx : h' = [h EXCEPT !.unit = u, !.dpi = dd] /\ phase' = "done"
+\* mode "mixed": every character from any class.  mode "homog": a homogeneous text (every character from the class of the
+\* first one, or "rep" = the previous character again) optionally closed by ONE character of any class (AppendTail) - the shape
+\* on which a measuring shortcut for all-digit / all-ASCII / all-blank texts would differ from its extension.
+Start == /\ phase = "font" /\ \E f \in Fonts, s \in SizeIdx, m \in Modes : h' = [h EXCEPT !.font = f, !.size = s, !.mode = m] /\ phase' = "append"
+AppendChar == /\ phase = "append" /\ Len(h.txt) < MaxLen
+              /\ \E c \in Classes : /\ IF Len(h.txt) = 0 THEN c # "rep"
+                                       ELSE IF h.mode = "mixed" THEN TRUE ELSE c \in {h.txt[1], "rep"}
+                                    /\ h' = [h EXCEPT !.txt = Append(@, c)]
+              /\ UNCHANGED phase
+AppendTail == /\ phase = "append" /\ h.mode = "homog" /\ Len(h.txt) >= 1 /\ Len(h.txt) <= MaxLen
+        /\ \E c \in Classes \ {"rep"} : h' = [h EXCEPT !.txt = Append(@, c)]
+        /\ phase' = "tail"
+Measure == /\ phase \in {"append", "tail"} /\ \E u \in Units, dd \in DpiIdx : h' = [h EXCEPT !.unit = u, !.dpi = dd] /\ phase' = "done"
 Reject == /\ phase = "append" /\ Len(h.txt) <= 1 /\ \E b \in BadKinds : h' = [h EXCEPT !.bad = b] /\ phase' = "done"
-Next == Start \/ AppendChar \/ Measure \/ Reject
+Next == Start \/ AppendChar \/ AppendTail \/ Measure \/ Reject
 Spec == Init /\ [][Next]_vars
-AppendOnly == [][phase = "append" /\ phase' = "append" => (Len(h'.txt) = Len(h.txt) + 1 /\ SubSeq(h'.txt, 1, Len(h.txt)) = h.txt)]_vars
+AppendOnly == [][phase = "append" /\ phase' \in {"append", "tail"} => (Len(h'.txt) = Len(h.txt) + 1 /\ SubSeq(h'.txt, 1, Len(h.txt)) = h.txt)]_vars
 Emit == phase = "done" => PrintT(ToJson(h))
 =============================================================================
